@@ -425,7 +425,7 @@ def _case(arg) -> Dict[str, Any]:
     seed, zero_w = arg
     from hv import cpgen, rt
 
-    evs = cpgen.gen_cp_events(seed, n_steps=3, n_streams=1 + seed % 3, annotations=bool(seed % 2))
+    evs = cpgen.gen_cp_events(seed, n_steps=3, n_streams=1 + seed % 3, annotations=bool(seed % 2), n_threads=2 if seed % 3 == 0 else 1)
     inst = 0 if seed % 3 == 0 else ((0, 1) if seed % 3 == 1 else 1)
     fails: List[Dict[str, Any]] = []
     inp = {"seed": seed, "instance_id": inst, "zero_weight_launch_edges": zero_w, "events": {0: evs}}
